@@ -48,6 +48,9 @@ type outcome struct {
 func execute(t *testing.T, p *Program, debug bool) *outcome {
 	o := &outcome{}
 	start := time.Now()
+	// an unrecovered panic inside the library takes the process down: the program
+	// being executed is on disk before it starts (the driver keeps it with the log)
+	_ = os.WriteFile(fmt.Sprintf("%s/current-program-%s-%d.json", rep.OutDir(), p.Profile, rep.Shard()), p.JSON(), 0o644)
 	o.leftover = sim.Bubble(t, func() {
 		o.r = NewRunner(p, RunOpts{Debug: debug})
 		o.r.Run()
